@@ -13,7 +13,8 @@ def goodFacts : Facts02 :=
   { occCount := .perItem, mpNameAnyKey := true, nullComplexIsNone := true, repeatedScalarFault := true,
     leafKindFault := true, boolCoerced := true, utf8Fault := true, jsonNullDateOk := true, intFromFloat := true,
     nativeKindFault := true, binKindFault := true, rawBytesKindFault := true, nestedArrayOk := true, parseErrorsFault := true, binTextValidated := true, missingBodyFault := true,
-    guardPathLocal := true, fileFormValidated := true }
+    guardPathLocal := true, fileFormValidated := true,
+    mpBytesTable := SpyneModel.Generated.facts02.mpBytesTable, mpBoolPassThrough := [], tableUtf8Fault := true }
 
 def jText (j : Json) : Text :=
   match j with
@@ -198,7 +199,9 @@ def jCfg (j : Json) : Cfg :=
     validator := (match jField j "validator" with | .str "soft" => .soft | _ => .none),
     ignoreWrappers := getBool j "iw",
     complexAs := (match getStr j "cas" with | "list" => .list | _ => .dict),
-    polymorphic := getBool j "poly" }
+    polymorphic := getBool j "poly",
+    mpRaw := getBool j "raw",
+    mpBinType := (match jField j "bin" with | .bool b => b | _ => true) }
 
 def resJson {α} (f : α → Json) : Res α → Json
   | .ok a false => Json.mkObj [("ok", f a)]
